@@ -18,14 +18,14 @@ TECHNIQUE = 'runtime monitor: reference event recorder vs recorded actions (mult
 RULE = ('generated multi-function / multi-thread programs (32 shapes: loops, recursion, exceptions, generators, '
         'iterators, with, closures, classes, threads) x 0-8 tracepoints: line tracepoints on executed and '
         'never-executed lines, def lines, the same line number in another file, several tracepoints on one line '
-        '(separate triggers or merged as convert_response does), method tracepoints by name, four action kinds; '
+        '(separate triggers or merged as convert_response does), method tracepoints by name, the stage argument spelled out (with a line tracepoint also naming its function), four action kinds; '
         'non-trivial = at least one action expected or a tracepoint installed on a never-matching location; '
         'distinct by (shapes, tracepoint set)')
 ASSUMPTIONS = ['only events CPython delivers to the trace function are in the quantifier',
                'method tracepoints always carry method_name (the unnamed form is undocumented)']
 REQUIRE = {'reference_events': 50000, 'expected_actions': 2000, 'runs_with_threads': 10, 'colocated_runs': 40,
            'method_tracepoint_hits': 100,
-           'installed_via_convert_response': 60, 'updated_while_matching': 20, 'twin_file_runs': 60}
+           'installed_via_convert_response': 60, 'updated_while_matching': 20, 'twin_file_runs': 60, 'explicit_stage_runs': 60}
 
 
 def plan(tier, seed):
@@ -83,6 +83,7 @@ def case_place(seed, out, spec, wd):
     wire_protos = []
     triggers = {}
     colocated = False
+    explicit_stage = False
     for i in range(ntp):
         c = r.randrange(10)
         base = prog.base
@@ -105,6 +106,12 @@ def case_place(seed, out, spec, wd):
             if twin and r.chance(0.5):
                 base = decoy.base
         tp_id, args, metrics, expect = make_tp(r, i, base, line, method)
+        if r.chance(0.25):
+            # the stage spelled out; a line tracepoint may also name its enclosing function (the stage decides)
+            args['stage'] = 'line_start' if method is None else 'method_start'
+            if method is None and r.chance(0.6):
+                args['method_name'] = r.pick(list(prog.func_lines.keys()))
+            explicit_stage = True
         trig = line_trigger(tp_id, base, line, args, [], metrics)
         if trig is None:
             continue
@@ -236,6 +243,8 @@ def case_place(seed, out, spec, wd):
         out.count('updated_while_matching')
     if twin:
         out.count('twin_file_runs')
+    if explicit_stage:
+        out.count('explicit_stage_runs')
     out.case({'shapes': prog.shapes, 'calls': prog.calls, 'tps': witness['tracepoints'], 'decoy': use_decoy},
              nontrivial=bool(expected) or bool(tps),
              sample={'shapes': prog.shapes, 'tracepoints': witness['tracepoints'], 'reference_events': len(rig.events),
